@@ -44,6 +44,10 @@ pub enum Kind {
     Runs,
     /// concatenation of differently distributed blocks
     Mixed,
+    /// long runs of one byte value (lengths around 16 .. 65537, i.e. around the thresholds a
+    /// run-length or "all windows alike" fast path would use) separated by short fragments over
+    /// the two-letter alphabet {run byte, other byte}: the contexts (b,b,x,b), (x,b,b,b), ...
+    LongRuns,
 }
 
 #[derive(Clone, Debug, PartialEq, Eq, serde::Serialize, serde::Deserialize)]
@@ -102,6 +106,25 @@ fn fill(kind: &Kind, len: usize, rng: &mut Xs, out: &mut Vec<u8>) {
                 let n = 1 + rng.below(40) as usize;
                 for _ in 0..n {
                     out.push(b);
+                }
+            }
+            out.truncate(start + len);
+        }
+        Kind::LongRuns => {
+            const RUNS: &[usize] = &[15, 16, 17, 31, 32, 33, 63, 64, 65, 255, 256, 257, 1023, 1024, 1025, 4095, 4096, 4097, 8192, 65535, 65536, 65537];
+            let start = out.len();
+            let (b, x) = (rng.byte(), rng.byte());
+            while out.len() - start < len {
+                for _ in 0..rng.below(9) {
+                    out.push(if rng.below(3) == 0 { x } else { b });
+                }
+                let room = len - (out.len() - start).min(len);
+                // prefer the longest thresholds that still fit
+                let fit: Vec<usize> = RUNS.iter().copied().filter(|&r| r <= room).collect();
+                let n = if fit.is_empty() { room } else { fit[fit.len() - 1 - rng.below(fit.len().min(6) as u64) as usize] };
+                let rb = if rng.below(4) == 0 { x } else { b };
+                for _ in 0..n {
+                    out.push(rb);
                 }
             }
             out.truncate(start + len);
@@ -223,7 +246,9 @@ pub fn data_strategy(v: Variant, max: usize) -> BoxedStrategy<DataSpec> {
         .prop_map(|(idx, base)| DataSpec::explicit(idx.into_iter().map(|i| base.wrapping_add(i.wrapping_mul(37))).collect()));
     let bulk = (kind_strategy(), len_strategy(v, max), any::<u64>())
         .prop_map(|(kind, len, seed)| DataSpec { kind, len, seed, explicit: None });
-    prop_oneof![1 => small, 1 => small_alpha, 6 => bulk].boxed()
+    let longruns = (prop_oneof![Just(max.saturating_mul(12).clamp(64, 70_000)), Just(max.saturating_mul(3).clamp(64, 70_000)), 64usize..=max.max(65)], any::<u64>())
+        .prop_map(|(len, seed)| DataSpec { kind: Kind::LongRuns, len, seed, explicit: None });
+    prop_oneof![1 => small, 1 => small_alpha, 6 => bulk, 1 => longruns].boxed()
 }
 
 // ---------------------------------------------------------------- states
